@@ -74,6 +74,7 @@ type cluster struct {
 	watchGroup *threading.RoutineGroup
 	done       chan lang.PlaceholderType
 	lock       sync.Mutex
+	reloadLock sync.Mutex
 }
 
 func newCluster(endpoints []string) *cluster {
@@ -122,9 +123,19 @@ func (c *cluster) watchConnState(cli EtcdClient) {
 }
 
 func (c *cluster) reload(cli EtcdClient) {
+	// 同一时刻只进行一次重载
+	c.reloadLock.Lock()
+	defer c.reloadLock.Unlock()
+
 	c.lock.Lock()
 	close(c.done)
-	c.watchGroup.Wait()
+	group := c.watchGroup
+	c.lock.Unlock()
+
+	// 等待旧的监控协程退出时不能持有 c.lock：它们处理完手头的事件或快照才会退出，而这需要该锁
+	group.Wait()
+
+	c.lock.Lock()
 	c.done = make(chan lang.PlaceholderType)
 	c.watchGroup = threading.NewRoutineGroup()
 	var keys []string
